@@ -72,7 +72,7 @@ def reset_state(env=None):
 def _run_task(conn, name, fn, args, cfg):
     import faulthandler
 
-    wall = cfg.get("child_wall", 120)
+    wall = cfg.get("child_wall", 300)
     if wall:
         faulthandler.dump_traceback_later(wall, exit=True)
     reset_state(cfg.get("env"))
@@ -345,7 +345,9 @@ class Sim:
                 proc.status = "lost"
                 self._reap(proc)
                 self.note("lost", proc.name)
-                return
+                # a simulated process vanished without being killed by the simulator
+                # (watchdog, crash of the interpreter): never a verdict about pydra
+                raise HarnessError(f"simulated process {proc.name} was lost at {self.label_text(proc.pending)}")
             kind = msg[0]
             if kind == "ev":
                 data = msg[1]
